@@ -129,6 +129,42 @@ func ZZWriterPiece() {
 	<-w.Done()
 }
 
+// ZZWriterPieceTwice: the same request served twice on one connection: the
+// second answer is a reject frame, and only the first counts as upload.
+//
+//vrt:cover ZZWriterPieceTwice duplicate rejected
+func ZZWriterPieceTwice() {
+	conn := &vrt.Conn{Written: make(chan struct{}, 4)}
+	w := New(conn, logger.New("zz"), 10, true, nil)
+	go w.Run()
+	data := &vrt.MemFile{Data: vrt.Bytes("piece_content", 64)}
+	i, b, l := vrt.U32("index"), vrt.U32("begin"), vrt.U32("length")
+	vrt.Assume(l >= 1 && b <= 64 && l <= 64-b)
+	req := peerprotocol.RequestMessage{Index: i, Begin: b, Length: l}
+	w.SendPiece(req, data)
+	<-conn.Written
+	ev := <-w.Messages()
+	up, ok := ev.(BlockUploaded)
+	vrt.Assert(ok && up.Length == l, "upload counter differs from the payload bytes written")
+	w.SendPiece(req, data)
+	<-conn.Written
+	vrt.Assert(len(conn.Writes) == 2, "second answer not written")
+	out := conn.Writes[1]
+	vrt.Cover(true, "duplicate rejected")
+	vrt.Assert(len(out) == 17 && out[3] == 13 && out[4] == 16, "duplicate request not answered with a reject frame")
+	// nothing more may be reported as uploaded: the writer must be idle again
+	w.SendMessage(peerprotocol.ChokeMessage{})
+	uploaded := false
+	select {
+	case <-w.Messages():
+		uploaded = true
+	case <-conn.Written:
+	}
+	vrt.Assert(!uploaded, "a reject frame was counted as uploaded payload")
+	w.Stop()
+	<-w.Done()
+}
+
 // ZZRoundTrip: every fixed-layout message the writer emits is decoded by the
 // project's own reader to an identical message, however the stream is
 // fragmented (none / one arbitrary split / byte by byte).
